@@ -1000,8 +1000,6 @@ func (e *c12Evil) length(n int) []byte {
 			l := c12HugeLens[e.r.Intn(len(c12HugeLens))]
 			if e.r.Chance(1, 12) {
 				l = 1<<24 + uint64(e.r.Intn(8))
-			} else if e.r.Chance(1, 120) {
-				l = 1 << 28
 			}
 			return c12Compact(e.r, new(big.Int).SetUint64(l), false)
 		default:
